@@ -18,7 +18,20 @@ import (
 //	style 2  untyped containers: map[interface{}]interface{}, []interface{}, map[string]interface{}
 //	style 3  typed keys: list/set key -> [n]E array ([n]interface{} when E is not comparable); tuple key -> [n]interface{};
 //	         UDT key -> struct of interface{} fields; map key -> pointer to the map; blob key -> string; inet key -> *net.IP
-const nStyles = 3
+//	style 4  pointer to a DEFINED empty interface (type anyV interface{}, like database/sql/driver.Value): not *interface{}, yet everything is
+//	         assignable to it
+//	style 5  pointer to an interface WITH methods (fmt.Stringer): no preferred Go type implements it
+//	style 6  the same one level down: []anyV, map[anyV]anyV, struct{F0 anyV ...}, map[string]anyV
+//	style 7  one level down with methods: []fmt.Stringer, map[anyV]fmt.Stringer, []fmt.Stringer, map[string]fmt.Stringer
+const nStyles = 7
+
+// anyV is a defined interface type without methods
+type anyV interface{}
+
+var (
+	tAnyV     = reflect.TypeOf((*anyV)(nil)).Elem()
+	tStringer = reflect.TypeOf((*fmt.Stringer)(nil)).Elem()
+)
 
 func prefGt(s string) reflect.Type { return scalarReps(s)[0].gt }
 
@@ -45,6 +58,36 @@ func structOf(fts []reflect.Type, tags []string) reflect.Type {
 func styleType(t *ctype, a *aval, style int) reflect.Type {
 	if a != nil && a.kind == "null" {
 		a = nil
+	}
+	switch style {
+	case 4:
+		return tAnyV
+	case 5:
+		return tStringer
+	case 6, 7:
+		it := tAnyV
+		if style == 7 {
+			it = tStringer
+		}
+		switch t.kind {
+		case "scalar":
+			return it
+		case "list", "set":
+			return reflect.SliceOf(it)
+		case "map":
+			return reflect.MapOf(tAnyV, it)
+		case "tuple":
+			if style == 7 {
+				return reflect.SliceOf(it)
+			}
+			fts := make([]reflect.Type, len(t.fields))
+			for i := range fts {
+				fts[i] = it
+			}
+			return structOf(fts, nil)
+		default:
+			return reflect.MapOf(tString, it)
+		}
 	}
 	switch t.kind {
 	case "scalar":
@@ -157,7 +200,9 @@ func decodeInto(t *ctype, codec datacodec.Codec, b []byte, ver primitive.Protoco
 	} else {
 		res.Class = "ok"
 		if res.Gty != "" {
-			res.G = gvalOf(t, dt, dptr.Elem())
+			if res.G = gvalOf(t, dt, dptr.Elem()); !inUniverse(res.G) {
+				res.Gty, res.G = "", ""
+			}
 		}
 	}
 	if len(res.Err) > 200 {
@@ -219,4 +264,28 @@ func keyBases() []struct {
 	add(mapT(i32, mapT(listT(i32), txt)), mp(vint(1), mp(lst(vint(1)), aBytes([]byte("z")))))
 	add(tupleT(mapT(setT(i32), i32)), tup(mp(lst(vint(4)), vint(5))))
 	return r
+}
+
+// ifaceBases: one small value per container codec (and a scalar), for the interface-typed destinations of styles 4-7
+func ifaceBases() []struct {
+	t *ctype
+	a *aval
+} {
+	i32, txt := scalarT("SInt"), scalarT("SVarchar")
+	lst := func(es ...*aval) *aval { return &aval{kind: "list", elems: es} }
+	return []struct {
+		t *ctype
+		a *aval
+	}{
+		{listT(i32), lst(vint(1))},
+		{setT(i32), lst(vint(1))},
+		{mapT(i32, i32), &aval{kind: "map", pairs: [][2]*aval{{vint(1), vint(2)}}}},
+		{tupleT(i32), &aval{kind: "tuple", elems: []*aval{vint(1)}}},
+		{udtT([]string{"a"}, i32), &aval{kind: "udt", elems: []*aval{vint(1)}}},
+		{listT(tupleT(i32)), lst(&aval{kind: "tuple", elems: []*aval{vint(1)}})},
+		{mapT(txt, udtT([]string{"a"}, i32)), &aval{kind: "map", pairs: [][2]*aval{{aBytes([]byte("k")), &aval{kind: "udt", elems: []*aval{vint(1)}}}}}},
+		{tupleT(listT(i32), mapT(i32, i32)), &aval{kind: "tuple", elems: []*aval{lst(vint(1)), {kind: "map", pairs: [][2]*aval{{vint(1), vint(2)}}}}}},
+		{i32, vint(3)},
+		{txt, aBytes([]byte("x"))},
+	}
 }
